@@ -166,8 +166,8 @@ class Gen:
                     tel = s.raw[tname.lower()]; tk = local(tel.tag)
                     if tk == "type":
                         tp = tel.get("presence", "required"); exp = tp if (fp is None or fp == tp) else None
-                    elif tk == "enum": exp = "constant" if fp == "constant" else "required"
-                    elif tk == "set": exp = "required"
+                    elif tk == "enum": exp = {None: "required", "required": "required", "constant": "constant"}.get(fp)   # an enum field declared optional: sbeppc reports required (a choice of its own): not asserted
+                    elif tk == "set": exp = "required" if fp in (None, "required") else None
                     else: exp = fp or "required"   # composite field: the field's own presence attribute is the only statement the XML makes
                     if not (tk == "type" and tel.get("presence") == "constant") and fp != "constant":   # value_type_tag is documented as unavailable for numeric constants; constants of any kind are left out
                         s.same(ct, "typename %s::value_type_tag" % ftr, "%s::schema::types::%s" % (s.ns, tel.get("name")), "value_type_tag == the tag of the field's type")
